@@ -439,7 +439,7 @@ fn string_methods() -> Library {
             }
 
             /// Get the nth line in this string.
-            fn get(self, idx: u64) -> Option<char> {
+            fn get(self, idx: u64) -> Option<RotoString> {
                 let idx = idx.try_into().ok()?;
                 self.get(idx)
             }
